@@ -324,7 +324,9 @@ def gammaUrCfOut (ax : α) :
   | .hang => panicV
   | .done (_, _, _, _, _, _, _, ans) => .ok (ans * (RFun.exp ax))
 
-/-- gamma.rs:281–370 — `checked_gamma_lr a x` -/
+/-- gamma.rs:281–367 — `checked_gamma_lr a x`.  There is NO `x ≈ 0` row: the shortcut
+    `almost_eq(x, 0.0, DEFAULT_F64_ACC) ⇒ Ok(0.0)` was removed from the source by commit 9f2f5b7; a small
+    positive `x` goes on to the underflow test and the series (the `a ≈ 0` shortcut is still there) -/
 def gammaLrSpec (a x : α) : Except GammaFuncError α :=
   let ax := gammaIncAx a x
   let y := (1.0 : α) - a
@@ -335,8 +337,6 @@ def gammaLrSpec (a x : α) : Except GammaFuncError α :=
       ⟨"x ≤ 0 ∨ x == +inf", (x ≤ (0.0 : α)) ∨ ((x == (RFun.inf : α)) = true), .error GammaFuncError.XInvalid⟩,
       ⟨"a ≈ 0 (within DEFAULT_F64_ACC)",
         (R.prec.almost_eq a (0.0 : α) (R.prec.DEFAULT_F64_ACC (α := α))) = true, .ok (1.0 : α)⟩,
-      ⟨"x ≈ 0 (within DEFAULT_F64_ACC)",
-        (R.prec.almost_eq x (0.0 : α) (R.prec.DEFAULT_F64_ACC (α := α))) = true, .ok (0.0 : α)⟩,
       ⟨"ax < −709.78271289338399: prefactor underflows", ax < gammaIncUnderflow,
         firstMatch [⟨"a < x", a < x, .ok (1.0 : α)⟩] (.ok (0.0 : α))⟩,
       ⟨"x ≤ 1 ∨ x ≤ a: series", (x ≤ (1.0 : α)) ∨ (x ≤ a),
